@@ -1,5 +1,7 @@
 (** C04 — the fixed file is exactly the fixed tree; templated code is untouched. Pinned statements only. *)
 From Sq Require Import Base.Bytes Patch.Model Patch.Proofs Patch.Legacy Patch.SpanModel Patch.SpanProofs.
+From Sq Require Import Patch.TemplatedModel Patch.TemplatedWeave Patch.TemplatedTree Patch.TemplatedRender Patch.TemplatedFacts.
+From Sq Require Templ.Model Templ.ProcProofs.
 
 (** What [fix_string] writes for ANY list of patches is the source with the normalised patches
     (first patch per (source slice, text), stable order by start, patches starting before the
@@ -35,6 +37,80 @@ Theorem C04_templated_keeps_partial : forall tf t a b,
   exists pre post, fixed_text tf t = pre ++ sub (src tf) a b ++ post.
 Proof. exact fixed_text_keeps. Qed.
 Print Assumptions C04_templated_keeps_partial.
+
+(** With templating, full statement about the model. For every templated file whose slices tile the source
+    and the templated text ([Templ.ProcProofs.tiling]: what C15_render_tiling proves of the placeholder
+    templater's output) and every final tree with [tree_ok] (decidable; Patch/TemplatedModel.v: the ghost walk
+    [dpatches] along the branches [iter_patches] takes succeeds - templated ranges in reading order, every
+    changed leaf literal, no text in dropped metas -, the root's templated slice is the whole templated text,
+    the patches are sorted / disjoint / duplicate-free, every patch covers the same stretch of ONE literal
+    slice in source and templated text or is an insertion at a common slice border):
+    the text fix writes is literal pieces [lits] woven around ALL placeholders' own source texts, byte-identical
+    and in order, and the final tree's raw is the same [lits] woven around the placeholders' renderings - the
+    fixed source re-rendered ([render]). *)
+Theorem C04_templated : forall tf sl t,
+  Templ.ProcProofs.tiling (src tf) (tpl tf) sl 0 0 -> tree_ok tf sl t = true ->
+  exists lits, length lits = S (length (phs tf sl)) /\
+    fixed_text tf t = weave lits (phs tf sl) /\
+    raw t = render tf sl lits.
+Proof. exact templated_fixed_text. Qed.
+Print Assumptions C04_templated.
+
+(** The ghost walk is [iter_patches]: forgetting the templated ranges gives exactly the model's patch list. *)
+Theorem C04_templated_ghost : forall tf s ds,
+  dpatches tf s = Some ds -> map spatch ds = iter_patches tf s.
+Proof. exact dpatches_erase. Qed.
+Print Assumptions C04_templated_ghost.
+
+(** Tree side, for every segment on which the walk succeeds (no premise on source positions): the templated
+    images of its patches are in order inside the segment's templated slice and, spliced into the templated
+    text over that slice, give the segment's raw. *)
+Theorem C04_templated_tree_side : forall tf s ds, dpatches tf s = Some ds ->
+  tch (t0 (seg_pos s)) (t1 (seg_pos s)) ds /\
+  splice_r (tpl tf) (t0 (seg_pos s)) (t1 (seg_pos s)) (map tpatch ds) = raw s.
+Proof. exact dpatches_T. Qed.
+Print Assumptions C04_templated_tree_side.
+
+(** What [tree_ok] says about the placeholders themselves: no patch of the final tree reaches into the source
+    text of a templated slice (the conflict filter, C04_conflict_verdict, did its job). *)
+Theorem C04_templated_untouched : forall tf sl t p k,
+  Templ.ProcProofs.tiling (src tf) (tpl tf) sl 0 0 -> tree_ok tf sl t = true ->
+  In p (iter_patches tf t) -> In k sl -> Templ.Model.ty k = Templ.Model.STempl ->
+  p_e p <= Templ.Model.s0 k \/ Templ.Model.s1 k <= p_s p.
+Proof. exact tree_ok_untouched. Qed.
+Print Assumptions C04_templated_untouched.
+
+(** Every untemplated final tree whose root spans the file is [tree_ok] (one literal slice): the untemplated
+    clause [C04_untemplated] is the instance "no placeholder" of [C04_templated]
+    ([TemplatedFacts.untemplated_from_templated]). *)
+Theorem C04_tree_ok_untemplated : forall tf t,
+  untemplated tf -> spans_file tf t -> root_sfx t = [] ->
+  tree_ok tf [Templ.Model.mk_ts Templ.Model.SLit 0 (len (src tf)) 0 (len (src tf))] t = true.
+Proof. exact tree_ok_untemplated. Qed.
+Print Assumptions C04_tree_ok_untemplated.
+
+(** The same with the placeholder templater in the loop (Templ/Model.v, C15): when the templated file is what
+    [process] makes of the source (captures [caps] as the regex engine returned them, contract [caps_ok]) and the
+    final tree is [tree_ok], the fixed source is literal pieces woven around the captures' own texts, and the
+    templater run again on the fixed source with the same parameter values - on the captures relocated to where
+    the weave puts them, same names and texts ([reloc]; that the regex engine finds exactly these is its contract
+    here and is what the recorded finding "placeholder fused with its neighbour" breaks) - succeeds and renders
+    exactly the raw of the final tree. *)
+Theorem C04_templated_rerender : forall sr vals caps r rs t,
+  Templ.ProcProofs.caps_ok caps 0 (Templ.Model.len sr) ->
+  Templ.Model.process sr vals caps = Templ.Model.ROk r ->
+  tree_ok (mkTf sr (Templ.Model.tf_tpl r) rs) (Templ.Model.tf_sl r) t = true ->
+  exists lits,
+    let tf := mkTf sr (Templ.Model.tf_tpl r) rs in
+    let caps' := reloc sr lits caps 0 in
+    length lits = S (length caps) /\
+    fixed_text tf t = weave lits (map (cap_txt sr) caps) /\
+    map Templ.Model.cname caps' = map Templ.Model.cname caps /\
+    Templ.ProcProofs.caps_ok caps' 0 (Templ.Model.len (fixed_text tf t)) /\
+    Templ.ProcProofs.render_spec (fixed_text tf t) vals caps' 0 1 = Some (raw t) /\
+    exists r', Templ.Model.process (fixed_text tf t) vals caps' = Templ.Model.ROk r' /\ Templ.Model.tf_tpl r' = raw t.
+Proof. exact templated_rerender. Qed.
+Print Assumptions C04_templated_rerender.
 
 (** Before the repair (dedupe on the source slice alone, region looked up among all patches) a
     sorted, non-overlapping patch list with two different insertions at one position lost one. *)
